@@ -3,7 +3,7 @@ WORKER = "w_c04"
 HEADER = "From Coq Require Import List ZArith QArith Qcanon.\nFrom Dimod Require Import Base.Util Model.Poly Model.View Model.Hist Model.ChkC04.\nImport ListNotations."
 CHECK_FN = "check"
 N_QUICK = 1600
-N_THOROUGH = 8000
+N_THOROUGH = 14000
 TIMEOUT = 5400
 SHARD = 60
 SHRINK_KEYS = ["steps"]
